@@ -404,6 +404,13 @@ def c12(chk, g):
     chk.rule("X-SALTSTD", "with >= 16 random bytes and a 192-byte buffer the salt has at least the method's standard size")
     chk.rule("X-SHORT-EINVAL", "too few random bytes for any salt => EINVAL (never a weaker or salt-less setting)")
     chk.rule("X-AUTO", "rbytes == NULL draws exactly the method's nrbytes from the OS CSPRNG and then succeeds")
+    chk.rule("X-RBYTES-BOUND", "the salt is derived from the nrbytes bytes the caller supplied and from nothing beyond them")
+    for cid, c in g["res"].items():
+        bad = sorted({(a["fn"], a["line"], a["msg"]) for p in c["paths"] for a in p["alarms"] if a["kind"] == "R" and " rbytes[" in a["msg"]})
+        for fn, line, msg in bad[:1]:
+            chk.fail("X-RBYTES-BOUND", "%s:%d|%s" % (fn, line, cid.split("|")[0]), "%s line %d reads beyond the random bytes it was given: %s [cell %s] - part of the salt then comes from whatever follows the caller's buffer" % (fn, line, msg, cid), "%s:%d" % (fn, line), {"cell": cid})
+        if not bad:
+            chk.count("X-RBYTES-BOUND", 1)
     for cid, c in g["res"].items():
         mt = meta[cid]
         if mt["row"] is None:
